@@ -36,6 +36,22 @@ def store_not_undone(progs, obs, final, st):
 
 def run_item(ck, it, tier):
     name = it
+    if name.startswith('random-policy: '):
+        # the same programs on the store behind the eviction layer, its limit out of reach (the property is stated for the server,
+        # which can be started with either variant)
+        from .policy_checks import L
+        from mirse.models.bytesm import vlen
+        P = PROGRAMS[name[len('random-policy: '):]]
+        base = P.get('constraints')
+
+        def cons(progs, st):
+            return (base(progs, st) if base else []) + [z3.UGE(L, BV(1 << 34)), z3.ULT(L, 1 << 40),
+                                                        st.usage == z3.If(st.present[0], BV(24) + vlen(st.val[0]), BV(0))] + \
+                   [z3.ULE(vlen(inp.val), 1 << 20) for p in progs for _, inp in p] + [z3.ULE(vlen(st.val[0]), 1 << 20)]
+        ck.E.loop_bound = 8
+        explore_program(ck, P['names'], constraints=cons, allow_stale=P.get('stale', False), extra_obligations=P.get('extra'),
+                        policy='random', memory_limit=L)
+        return
     P = PROGRAMS[name]
     explore_program(ck, P['names'], constraints=P.get('constraints'), allow_stale=P.get('stale', False), extra_obligations=P.get('extra'))
 
@@ -55,7 +71,8 @@ PROGRAMS = {
     'cas-set||cas-set||get': dict(names=[['set'], ['set'], ['get']]),
     'set,set||get,delete': dict(names=[['set', 'set'], ['get', 'delete']], constraints=cas0([(0, 0), (0, 1)])),
 }
-QUICK = ['get||set(expired predecessor allowed)', 'get||cas-set', 'set||set', 'cas-set||cas-set', 'set||delete', 'get||delete', 'get,get||set']
+QUICK = ['get||set(expired predecessor allowed)', 'get||cas-set', 'set||set', 'cas-set||cas-set', 'set||delete', 'get||delete', 'get,get||set',
+         'random-policy: get||set(expired predecessor allowed)', 'random-policy: cas-set||cas-set', 'random-policy: set||delete', 'random-policy: get||delete']
 
 
 def run(tier, seed, replay_path=None):
@@ -63,7 +80,7 @@ def run(tier, seed, replay_path=None):
     if replay_path:
         return generic_replay(ck, replay_path)
     ck.engine()
-    items = QUICK if tier == 'quick' else list(PROGRAMS)
+    items = QUICK if tier == 'quick' else list(PROGRAMS) + ['random-policy: ' + n for n in PROGRAMS if n.count('||') == 1]
     ck.bounds.update({'programs': items, 'granularity': 'calls into DashMap / atomics (guards keep the shard lock until dropped)',
                       'initial state': 'absent / live / expired-uncollected (where the commands have a contract for it), all fields symbolic',
                       'clock': 'constant during the concurrent episode'})
